@@ -1,4 +1,4 @@
-from lena.core import LenaKeyError
+from lena.core import LenaKeyError, LenaTypeError
 from .functions import str_to_list, get_recursively
 # todo: fix imports.
 # import lena.flow.functions
@@ -19,10 +19,16 @@ class DeleteContext():
         # lists, only tuples, or can we mix them?
         if isinstance(key, tuple):
             key = list(key)
-        if not isinstance(key, list):
+        if isinstance(key, str):
             keyl = str_to_list(key)
-        else:
+        elif (isinstance(key, list)
+              and all(isinstance(k, str) for k in key)):
             keyl = key
+        else:
+            raise LenaTypeError(
+                "key must be a string or a list of strings, "
+                "{} provided".format(key)
+            )
         # empty key removes the entire context.
         # Therefore it is not default.
         self._keyl = keyl
@@ -37,12 +43,19 @@ class DeleteContext():
         # todo: improve imports. Remove circular ones.
         from lena.flow import get_data_context
         data, context = get_data_context(value)
+        if not self._keyl:
+            # empty key removes the entire context
+            context.clear()
+            return value
         subcont_key, key = self._keyl[:-1], self._keyl[-1]
         try:
             subcont = get_recursively(context, subcont_key)
         except LenaKeyError:
             return value
 
+        if not isinstance(subcont, dict):
+            # the key is nested deeper than the context
+            return value
         try:
             del subcont[key]
         except KeyError:
